@@ -48,6 +48,8 @@ from hpl.ast.properties import HplProperty, HplScope
 
 P = TypeVar('P', HplPredicate, HplExpression)
 
+MAX_FOLDED_PRODUCT_TERMS = 1000
+
 INVERSE_OPERATORS = {
     BuiltinBinaryOperator.ADD.value: BuiltinBinaryOperator.ADD.value,
     BuiltinBinaryOperator.MULT.value: BuiltinBinaryOperator.MULT.value,
@@ -1008,11 +1010,10 @@ def _simplify_function_sum(call: HplFunctionCall) -> HplExpression:
         return _simplify(expr)
     if isinstance(arg, HplRange):
         if is_number_literal(arg.min_value) and is_number_literal(arg.max_value):
-            n = 0
             lb = int(arg.min_value.value) + (1 if arg.exclude_min else 0)
             ub = int(arg.max_value.value) + (0 if arg.exclude_max else 1)
-            for i in range(lb, ub):
-                n += i
+            # arithmetic series: the range may span the whole of a 64-bit type
+            n = (lb + ub - 1) * (ub - lb) // 2 if ub > lb else 0
             return HplLiteral.number(n)
     return call
 
@@ -1042,6 +1043,10 @@ def _simplify_function_prod(call: HplFunctionCall) -> HplExpression:
             n = 1
             lb = int(arg.min_value.value) + (1 if arg.exclude_min else 0)
             ub = int(arg.max_value.value) + (0 if arg.exclude_max else 1)
+            if lb <= 0 < ub:
+                return HplLiteral.number(0)
+            if ub - lb > MAX_FOLDED_PRODUCT_TERMS:
+                return call  # do not expand very long products
             for i in range(lb, ub):
                 n *= i
             return HplLiteral.number(n)
